@@ -1,0 +1,21 @@
+//go:build verif
+
+package endorse
+
+import (
+	"context"
+	"io"
+
+	epb "github.com/google/gce-tcb-verifier/proto/endorsement"
+	rpb "github.com/google/gce-tcb-verifier/proto/releases"
+)
+
+// MakeEventsForVerif exposes makeEvents (verification harness only).
+func MakeEventsForVerif(random io.Reader, endorsement *epb.VMLaunchEndorsement) ([]byte, error) {
+	return makeEvents(random, endorsement)
+}
+
+// AddEndorsementEntryForVerif exposes addEndorsementEntry (verification harness only).
+func AddEndorsementEntryForVerif(ctx context.Context, entries []*rpb.VMEndorsementMap_Entry, entry *rpb.VMEndorsementMap_Entry) []*rpb.VMEndorsementMap_Entry {
+	return addEndorsementEntry(ctx, entries, entry)
+}
